@@ -18,6 +18,13 @@ repaired code (all `true`, the default; patches/C05-0[123]-*.diff):
         worker holds the mutex there: state `aboutToWait`, `lock = true`);
   fixC  a worker that exits voluntarily tolerates that cleanup() has already emptied the
         cabinet (as found: it asserts / posts `nullptr->join()` to the loop).
+Round 2 (patches/C05-0[45]-*.diff; `Cfg.round1` = fixA..C only):
+  fixD  workers that left the cabinet by themselves are kept in a list (`exiting`) which cleanup()
+        joins too (before: only the loop joined them, later — cleanup() returned while such a
+        thread, state `leaving`, was still running);
+  fixE  the worker leaves the cabinet in the SAME critical section in which it decides to exit
+        (before: it unlocked in between — state `exitVol false` — and execute() still counted it,
+        spawned nobody, and the new task was never executed).
 
 Condition variable: `waiting` workers are the waiter set.  `wake w` moves one waiter to `woken`
 at any time (covers notify_one, notify_all and spurious wake-ups); `notifyAll` (cleanup) wakes
@@ -46,12 +53,18 @@ structure Cfg where
   fixA : Bool := true
   fixB : Bool := true
   fixC : Bool := true
+  fixD : Bool := true
+  fixE : Bool := true
 deriving Repr, DecidableEq
 
 /-- `initialize(min,max)` accepts exactly these -/
 def Cfg.ok (c : Cfg) : Bool := decide (c.min ≤ c.max) && decide (0 < c.max)
 
-def Cfg.asFound (min max : Nat) : Cfg := { min := min, max := max, fixA := false, fixB := false, fixC := false }
+def Cfg.asFound (min max : Nat) : Cfg :=
+  { min := min, max := max, fixA := false, fixB := false, fixC := false, fixD := false, fixE := false }
+
+/-- the code after the round-1 patches (01-03) only -/
+def Cfg.round1 (min max : Nat) : Cfg := { min := min, max := max, fixD := false, fixE := false }
 
 /-- THREAD_POOL_PRIO_SIZE -/
 def nPrio : Nat := 5
@@ -75,7 +88,9 @@ inductive PC where
   | running (t : Tk)      -- in the running set, body not yet executed
   | postCb (t : Tk)       -- body has returned
   | finishing (t : Tk)    -- completion callback (if any) posted to the loop
-  | exitVol               -- decided to exit voluntarily (no more work), mutex released
+  | exitVol (own : Bool)  -- decided to exit voluntarily (no more work), mutex released;
+                          -- own = it already took its thread object out of the cabinet (fixE)
+  | leaving               -- out of the cabinet, join posted to the loop, thread function not yet returned
   | exited                -- thread function returned
 deriving Repr, DecidableEq
 
@@ -96,6 +111,8 @@ structure State where
   idle     : Nat := 0
   cab      : List Nat := []          -- threads_cabinet
   vec      : List Nat := []          -- cleanup()'s local thread_vec
+  exiting  : List Nat := []          -- self-exited workers whose join is still queued in the loop (fixD)
+  pend     : Bool := false           -- execute() has returned from its critical section, notify_one() not yet called
   pc       : Nat → PC := fun _ => .exited
   nW       : Nat := 0                -- workers ever created
   lock     : Bool := false           -- mutex held across a step boundary (only in `aboutToWait`)
@@ -172,6 +189,7 @@ inductive Step where
   | join (w : Nat)              -- cleanup(): t->join() returns for the next thread of thread_vec
   | cleanupRet                  -- cleanup() returns
   | loopRun                     -- the loop executes the front of its run-in-loop queue
+  | notifyOne (w : Option Nat)  -- execute(): cond_var.notify_one() — wakes waiter w; `none` only if nobody waits
   -- worker w
   | enter (w : Nat)             -- lock; exit check; ++idle; predicate …
   | block (w : Nat)             -- … unlock and block (atomic in pthread_cond_wait)
@@ -181,27 +199,33 @@ inductive Step where
   | runBody (w : Nat)           -- the task body
   | postCb (w : Nat)            -- runInLoop(main_cb) if any
   | finish (w : Nat)            -- lock; doing.erase; free; unlock
-  | selfRemove (w : Nat)        -- lock; threads_cabinet.free(self); post join to the loop; return
+  | selfRemove (w : Nat)        -- (lock; threads_cabinet.free(self);) post join to the loop
+  | threadEnd (w : Nat)         -- the thread function returns
 deriving Repr, DecidableEq
 
 def inCleanup (s : State) : Bool := s.phase1 && !s.done
 
-/-- next thread cleanup() has to join -/
-def nextJoin (s : State) : Option Nat := (s.vec.filter (fun w => !s.joined.contains w)).head?
+/-- next thread cleanup() has to join: thread_vec, then (fixD) the self-exited ones -/
+def nextJoin (s : State) : Option Nat :=
+  ((s.vec ++ (if s.cfg.fixD then s.exiting else [])).filter (fun w => !s.joined.contains w)).head?
+
+def noWaiter (s : State) : Bool := (List.range s.nW).all (fun w => s.pc w != .waiting)
 
 def valid (s : State) : Step → Bool
-  | .execute _ _ => !s.lock && !inCleanup s
-  | .cancel t => !s.lock && !inCleanup s && decide (t < s.nextTask)
-  | .status t => !s.lock && !inCleanup s && decide (t < s.nextTask)
-  | .snapshot => !s.lock && !inCleanup s
-  | .cleanup1 => !s.lock && !s.phase1
+  | .execute _ _ => !s.lock && !inCleanup s && !s.pend
+  | .cancel t => !s.lock && !inCleanup s && !s.pend && decide (t < s.nextTask)
+  | .status t => !s.lock && !inCleanup s && !s.pend && decide (t < s.nextTask)
+  | .snapshot => !s.lock && !inCleanup s && !s.pend
+  | .cleanup1 => !s.lock && !s.phase1 && !s.pend
+  | .notifyOne (some w) => s.pend && decide (w < s.nW) && s.pc w == .waiting
+  | .notifyOne none => s.pend && noWaiter s
   | .setStop => s.phase1 && !s.stop && (!s.cfg.fixB || !s.lock)
   | .notifyAll => s.stop && !s.notified
   | .join w => s.notified && !s.done && nextJoin s == some w && s.pc w == .exited
   | .cleanupRet => s.notified && !s.done && (nextJoin s).isNone
-  | .loopRun => !inCleanup s && (match s.loopQ with
+  | .loopRun => !inCleanup s && !s.pend && (match s.loopQ with
       | [] => false
-      | .joinW w :: _ => s.pc w == .exited
+      | .joinW w :: _ => (s.cfg.fixD && !s.exiting.contains w) || s.pc w == .exited
       | _ => true)
   | .enter w => decide (w < s.nW) && !s.lock && s.pc w == .start
   | .block w => decide (w < s.nW) && s.pc w == .aboutToWait
@@ -211,13 +235,14 @@ def valid (s : State) : Step → Bool
   | .runBody w => decide (w < s.nW) && (match s.pc w with | .running _ => true | _ => false)
   | .postCb w => decide (w < s.nW) && (match s.pc w with | .postCb _ => true | _ => false)
   | .finish w => decide (w < s.nW) && !s.lock && (match s.pc w with | .finishing _ => true | _ => false)
-  | .selfRemove w => decide (w < s.nW) && !s.lock && s.pc w == .exitVol
+  | .selfRemove w => decide (w < s.nW) && (match s.pc w with | .exitVol own => own || !s.lock | _ => false)
+  | .threadEnd w => decide (w < s.nW) && s.pc w == .leaving
 
 def step (s : State) : Step → State
   | .execute prio cb =>
     if s.done then s else            -- `is_ready` false: null token, nothing happens
     let t : Tk := { id := s.nextTask, lvl := levelOf prio, cb := cb }
-    let s1 := { s with undo := s.undo ++ [t], nextTask := s.nextTask + 1 }
+    let s1 := { s with undo := s.undo ++ [t], nextTask := s.nextTask + 1, pend := true }
     if s1.undo.length > s1.idle then
       if s1.cab.length < s1.cfg.max then
         setPc { s1 with cab := s1.cab ++ [s1.nW], nW := s1.nW + 1 } s1.nW .start     -- createWorker
@@ -238,16 +263,23 @@ def step (s : State) : Step → State
   | .setStop => { s with stop := true }
   | .notifyAll =>
     { s with notified := true, pc := fun w => if s.pc w == .waiting then .woken else s.pc w }
-  | .join w => { s with joined := w :: s.joined }
+  | .join w => { s with joined := w :: s.joined, exiting := s.exiting.filter (· != w) }
+  | .notifyOne (some w) => setPc { s with pend := false } w .woken
+  | .notifyOne none => { s with pend := false }
   | .cleanupRet => { s with done := true }
   | .loopRun =>
     match s.loopQ with
     | [] => s
     | .cb t :: q => { s with loopQ := q, cbs := t :: s.cbs }
-    | .joinW w :: q => { s with loopQ := q, joined := w :: s.joined }
+    | .joinW w :: q =>
+      if s.cfg.fixD && !s.exiting.contains w then { s with loopQ := q }     -- cleanup() has joined it already
+      else { s with loopQ := q, joined := w :: s.joined, exiting := s.exiting.filter (· != w) }
     | .joinNull :: q => { s with loopQ := q, crashed := true }
   | .enter w =>
-    if s.idle ≥ s.undo.length && decide (s.cab.length > s.cfg.min) then setPc s w .exitVol
+    if s.idle ≥ s.undo.length && decide (s.cab.length > s.cfg.min) then
+      if s.cfg.fixE && s.cab.contains w then
+        setPc { s with cab := s.cab.filter (· != w), exiting := if s.cfg.fixD then s.exiting ++ [w] else s.exiting } w (.exitVol true)
+      else setPc s w (.exitVol false)
     else afterPred { s with idle := s.idle + 1 } w
   | .block w => setPc { s with lock := false } w .waiting
   | .wake w => setPc s w .woken
@@ -269,10 +301,15 @@ def step (s : State) : Step → State
     | .finishing t => setPc { s with doing := s.doing.filter (· != t.id) } w .start
     | _ => s
   | .selfRemove w =>
-    if s.cab.contains w then
-      setPc { s with cab := s.cab.filter (· != w), loopQ := s.loopQ ++ [.joinW w] } w .exited
-    else if s.cfg.fixC then setPc s w .exited
-    else setPc { s with loopQ := s.loopQ ++ [.joinNull], crashed := true } w .exited   -- TBOX_ASSERT aborts
+    match s.pc w with
+    | .exitVol true => setPc { s with loopQ := s.loopQ ++ [.joinW w] } w .leaving
+    | _ =>
+      if s.cab.contains w then
+        setPc { s with cab := s.cab.filter (· != w), loopQ := s.loopQ ++ [.joinW w],
+                       exiting := if s.cfg.fixD then s.exiting ++ [w] else s.exiting } w .leaving
+      else if s.cfg.fixC then setPc s w .leaving
+      else setPc { s with loopQ := s.loopQ ++ [.joinNull], crashed := true } w .leaving   -- TBOX_ASSERT aborts
+  | .threadEnd w => setPc s w .exited
 
 /-- run a step list; `none` as soon as a step is not enabled in the current state -/
 def exec (s : State) : List Step → Option State
